@@ -95,11 +95,13 @@ def bridge_status(part):
             r = run_lean(text, "Bridge_" + part)
             names = set(re.findall(r"^theorem (?:Bridge\.)?bridge_([A-Za-z_0-9]+)\s*:\s*stmt_\1\b", text, re.M))
             stmts = set(re.findall(r"^def stmt_([A-Za-z_0-9]+) : Prop", text, re.M))
+            cstm = set(re.findall(r"^def cstmt_([A-Za-z_0-9]+) : Prop", text, re.M))
+            cnames = set(re.findall(r"^theorem (?:Bridge\.)?cbridge_([A-Za-z_0-9]+)\s*:\s*cstmt_\1\b", text, re.M)) & cstm
             closed = "theorem Bridge.Lc_prime" in text and (part == "abstract" or "theorem Bridge.Q_prime" in text)
-            _STATIC[key] = dict(ok=r["ok"] and not errors and closed, names=names & stmts, seconds=r["seconds"], cached=r["cached"], sha=r["sha"],
+            _STATIC[key] = dict(ok=r["ok"] and not errors and closed, names=names & stmts, cnames=cnames, seconds=r["seconds"], cached=r["cached"], sha=r["sha"],
                                 why=(str(errors) if errors else r["tail"][-400:]))
         except Exception as e:
-            _STATIC[key] = dict(ok=False, names=set(), seconds=0, cached=False, sha="", why="%s: %s" % (type(e).__name__, e))
+            _STATIC[key] = dict(ok=False, names=set(), cnames=set(), seconds=0, cached=False, sha="", why="%s: %s" % (type(e).__name__, e))
     return _STATIC[key]
 
 
@@ -212,6 +214,15 @@ def theorem_status(name, repo=None):
 
 def report_for(verifier, rep, c, finfo):
     st, why = theorem_status(c.lean_theorem, verifier.repo)
+    if st == "discharged":
+        # the theorem must state the contract: the clause texts of the contract, printed over the generated mirror of the real
+        # function (Bridge.cstmt_<fn>), are proved from it in BridgeProofsCurve.lean (Bridge.cbridge_<fn>)
+        fn = c.qual.split(".")[-1]
+        b = bridge_status("curve")
+        if b["ok"] and fn in b["cnames"]:
+            why += "; contract clauses printed as Bridge.cstmt_%s and proved (cbridge_%s)" % (fn, fn)
+        else:
+            st, why = "undecided", "lean: contract bridge %s: %s" % ("does not check" if not b["ok"] else "has no proof of cstmt_" + fn, b["why"][-300:])
     if st != "discharged":
         # a failed proof is not a violation: look for a concrete falsifying input on the real function
         from . import edfalsify
